@@ -9,6 +9,7 @@ Existing helpers are never inlined: rules and tables refer to them by name."""
 import copy
 
 FRESH = [50_000_000]
+LAST_CANDIDATES = []      # names of the helpers expanded in the unit processed last
 MAX_STMTS = 80
 
 
@@ -119,18 +120,20 @@ class Inliner:
             # parameters must not be assigned or have their address taken in the body (they are substituted)
             pids = {p["id"] for p in fd.get("params", [])}
             bad = False
+            assigned = set()
             for n in _walk(body):
                 if n.get("k") == "Bin" and n.get("op", "").endswith("=") and n["op"] not in ("==", "!=", "<=", ">="):
                     l = _strip(n["x"])
                     if isinstance(l, dict) and l.get("k") == "Ref" and l.get("id") in pids:
-                        bad = True
+                        assigned.add(l["id"])
                 if n.get("k") == "Un" and n.get("op") in ("&", "pre++", "pre--", "post++", "post--"):
                     l = _strip(n["e"])
                     if isinstance(l, dict) and l.get("k") == "Ref" and l.get("id") in pids:
-                        bad = True
+                        assigned.add(l["id"])
                 if n.get("k") == "Call" and n.get("callee") == fd["n"]:
                     bad = True          # recursive
             if not bad:
+                fd["_assigned_params"] = assigned      # these get a local copy at the call site
                 self.cands[fd["n"]] = fd
         self.count = 0
 
@@ -138,8 +141,9 @@ class Inliner:
     def expand(self, call):
         fd = self.cands[call["callee"]]
         params = fd.get("params", [])
-        if len(params) != len(call["a"]) or not all(_pure(a) for a in call["a"]):
+        if len(params) != len(call["a"]):
             return None
+        impure = {p_["id"] for p_, a in zip(params, call["a"]) if not _pure(a)}     # evaluated once, into a local copy
         # an argument that reads a variable whose address is handed over in another argument is not stable
         addr = set()
         for a in call["a"]:
@@ -153,6 +157,16 @@ class Inliner:
             if any(n.get("k") == "Ref" and n.get("id") in addr for n in _walk(a)):
                 return None
         pmap = {p["id"]: a for p, a in zip(params, call["a"])}
+        copies = []
+        for p_, a in zip(params, call["a"]):
+            if p_["id"] in fd.get("_assigned_params", ()) or p_["id"] in impure:
+                # the helper changes its parameter: it works on a local copy of the argument
+                cid = _fresh()
+                copies.append({"k": "Decls", "l": call.get("l"), "d": [{"k": "Decl", "id": cid, "n": "__%s_%s" % (fd["n"], p_["n"]),
+                                                                        "t": p_.get("t"), "p": p_.get("p"), "pc": p_.get("pc"),
+                                                                        "l": call.get("l"), "init": copy.deepcopy(a)}]})
+                pmap[p_["id"]] = {"k": "Ref", "id": cid, "n": "__%s_%s" % (fd["n"], p_["n"]), "rk": "local", "t": p_.get("t"),
+                                  "p": p_.get("p"), "pc": p_.get("pc"), "l": call.get("l")}
         lmap, labels = {}, {}
         for n in _walk(fd["body"]):
             if n.get("k") == "Decl" and n.get("id") is not None:
@@ -168,7 +182,7 @@ class Inliner:
             pre.append({"k": "Decls", "l": call.get("l"), "d": [{"k": "Decl", "id": rid, "n": ret_ref["n"], "t": rt, "l": call.get("l")}]})
         body = _fold(_subst(copy.deepcopy(fd["body"]), pmap, lmap, labels, ret_ref, end_label))
         body = self.stmt(body, depth=1)          # helpers that call further new helpers
-        blk = {"k": "Block", "l": call.get("l"), "b": pre + [body, {"k": "Label", "l": call.get("l"), "label": end_label,
+        blk = {"k": "Block", "l": call.get("l"), "b": pre + copies + [body, {"k": "Label", "l": call.get("l"), "label": end_label,
                                                                   "sub": {"k": "Null", "l": call.get("l")}}]}
         self.count += 1
         return blk, ret_ref
@@ -278,6 +292,7 @@ class Inliner:
 def inline_unit(funcs, known):
     """expand calls to new static helpers in every function of the unit; returns the number of expansions"""
     inl = Inliner(funcs, known)
+    LAST_CANDIDATES[:] = sorted(inl.cands)
     if not inl.cands:
         return 0
     for fd in funcs:
